@@ -295,6 +295,29 @@ class C14(Check):
                     if base.readbytes(f'{id0}/{id1}/' + full) != raw and not mon:
                         mon.append('a write on a read-only handle changed the backing file')
                         key_ = 'sd.rw'
+                    # the older interface onto the same card (pyctr.type.sd.SDFilesystem, real directories only): same key choice, same
+                    # counter, for every spelling of the leading separator(s)
+                    if tmp and not mon and 'Nintendo DSiWare' not in full:
+                        import warnings
+                        with warnings.catch_warnings():
+                            warnings.simplefilter('ignore')
+                            from pyctr.type.sd import SDFilesystem
+                        info['SDFilesystem (pyctr.type.sd) on the same card'] = 1
+                        sdx = SDFilesystem(tmp, crypto=e.CryptoEngine(), sd_key=data)
+                        for lead in ('', '/', '//', '///', '\\', '/\\'):
+                            with sdx.open(lead + full, 'rb') as fh:
+                                got = fh.read()
+                            if got != plain and not mon:
+                                mon.append(f'SDFilesystem.open({lead + full!r}) does not return the plaintext stored under the path counter')
+                                key_ = 'sd.read'
+                        lead = rng.pick(['', '/', '//', '\\', '/\\'])
+                        new_plain = rng.rbytes(rng.pick([1, 16, 33]))
+                        with sdx.open(lead + full, 'wb') as fh:
+                            fh.write(new_plain)
+                        raw = base.readbytes(f'{id0}/{id1}/' + full)
+                        if raw != ctr_xor(eng.key_normal[0x34], ivx, new_plain, False) and not mon:
+                            mon.append(f'SDFilesystem.open({lead + full!r}, "wb"): the backing file is not the encryption under the path counter')
+                            key_ = 'sd.write'
                     outs.append(raw.hex() or '-')
                     models.append(raw.hex() or '-')
                 except Exception as ex:  # noqa
